@@ -1,4 +1,169 @@
-/- Helper lemmas for the routing-table model. -/
-import Discv5Model.Model.KBucketSpec
-namespace Discv5.KB
-end Discv5.KB
+/-
+Helper lemmas for C16 (IP-diversity limits), final part: every table operation preserves the
+IP invariant.  The development is split over `IpFilterShapes` (filter spec, counting, shapes of the
+bucket operations), `IpFilterBucket` (per-bucket invariants), `IpFilterTable` (table-level
+counting), `IpFilterOps` (case analyses of the table operations), `IpFilterStep`, `IpFilterFold`.
+Everything lives in the namespace `Discv5.KB.Ip`.
+-/
+import Discv5Model.Proofs.IpFilterFold
+import Discv5Model.Proofs.KBucketLemmas
+namespace Discv5.KB.Ip
+
+/-- buckets of `(applyAt … t.bump i).setBucket i b'` -/
+theorem applyAt_set_buckets (c : Cfg Val) (now : Nat) (t0 : Table Val) (i : Nat) (b' : Bucket Val) :
+    ((Table.applyAt c now t0.bump i).setBucket i b').buckets = t0.buckets.set i b' := by
+  unfold Table.setBucket
+  simp only []
+  rw [applyAt_buckets, List.set_set]
+  rfl
+
+theorem applyAt_bucket_self (c : Cfg Val) (now : Nat) (t0 : Table Val) (i : Nat)
+    (hi : i < t0.buckets.length) :
+    (Table.applyAt c now t0.bump i).bucket i = ((t0.bucket i).applyPending c now (t0.tick + 1)).1 :=
+  bucket_of_set_self t0.bump _ i _ (applyAt_buckets c now t0.bump i) hi
+
+theorem shrink_step (keyOf : Val → Nat) (mi pt now : Nat) (t0 : Table Val) (i : Nat)
+    (f : Bucket Val → Bucket Val)
+    (hf : ∀ b, Good keyOf b → Mono b (f b) ∧ NB (f b))
+    (hk : Keep keyOf t0) :
+    IpInv ((Table.applyAt (ipCfg mi pt) now t0.bump i).setBucket i
+      (f ((Table.applyAt (ipCfg mi pt) now t0.bump i).bucket i))) ∧
+    ValuesMatchKeys keyOf ((Table.applyAt (ipCfg mi pt) now t0.bump i).setBucket i
+      (f ((Table.applyAt (ipCfg mi pt) now t0.bump i).bucket i))) := by
+  apply set_shrink keyOf t0 _ i _ (applyAt_set_buckets _ now t0 i _) hk.2.1 hk.2.2
+  intro hi
+  rw [applyAt_bucket_self _ now t0 i hi]
+  have hg := keep_good keyOf t0 hk i
+  have hm := applyPending_mono (ipCfg mi pt) now (t0.tick + 1) (t0.bucket i)
+  have hg' := good_applyPending keyOf mi pt now (t0.tick + 1) (t0.bucket i) hg
+  have := hf _ hg'
+  exact ⟨hm.trans this.1, this.2⟩
+
+theorem add_step (keyOf : Val → Nat) (mi pt now : Nat) (t0 t' : Table Val) (i : Nat) (key : Nat) (v : Val)
+    (b' : Bucket Val) (hkey : key = keyOf v)
+    (ht' : t' = (Table.applyAt (ipCfg mi pt) now t0.bump i).setBucket i b')
+    (hrel : Good keyOf ((Table.applyAt (ipCfg mi pt) now t0.bump i).bucket i) →
+      MonoEx key v ((Table.applyAt (ipCfg mi pt) now t0.bump i).bucket i) b' ∧ NB b' ∧
+      (Table.passesTableFilter (ipCfg mi pt) t0 key v = false →
+        Mono ((Table.applyAt (ipCfg mi pt) now t0.bump i).bucket i) b'))
+    (hk : Keep keyOf t0) (hT' : TInv (ipCfg mi pt) t') :
+    IpInv t' ∧ ValuesMatchKeys keyOf t' := by
+  have hb : t'.buckets = t0.buckets.set i b' := by rw [ht']; exact applyAt_set_buckets _ now t0 i _
+  have hg := keep_good keyOf t0 hk i
+  have hm := applyPending_mono (ipCfg mi pt) now (t0.tick + 1) (t0.bucket i)
+  have hg' := good_applyPending keyOf mi pt now (t0.tick + 1) (t0.bucket i) hg
+  cases hpass : Table.passesTableFilter (ipCfg mi pt) t0 key v
+  · apply set_shrink keyOf t0 t' i b' hb hk.2.1 hk.2.2
+    intro hi
+    rw [applyAt_bucket_self _ now t0 i hi] at hrel
+    have := hrel hg'
+    exact ⟨hm.trans (this.2.2 hpass), this.2.1⟩
+  · apply set_add keyOf (ipCfg mi pt) t0 t' i b' key v hkey hb hk.2.1 hk.2.2 hT'
+      (passes_spec mi pt t0 key v hpass)
+    intro hi
+    rw [applyAt_bucket_self _ now t0 i hi] at hrel
+    have := hrel hg'
+    exact ⟨(hm.ex _ _).trans this.1, this.2.1⟩
+
+theorem step_keep (keyOf : Val → Nat) (mi pt : Nat) (t : Table Val) (op : Op Val)
+    (hk : Keep keyOf t) (hop : op.Respects keyOf)
+    (hT' : TInv (ipCfg mi pt) (t.step (ipCfg mi pt) op)) :
+    IpInv (t.step (ipCfg mi pt) op) ∧ ValuesMatchKeys keyOf (t.step (ipCfg mi pt) op) := by
+  have hbump : IpInv t.bump ∧ ValuesMatchKeys keyOf t.bump := (bump_keep keyOf t hk).2
+  cases op with
+  | insertOrUpdate now key v st =>
+    have hkey : key = keyOf v := hop
+    show IpInv (t.insertOrUpdate (ipCfg mi pt) now key v st).1 ∧
+      ValuesMatchKeys keyOf (t.insertOrUpdate (ipCfg mi pt) now key v st).1
+    cases hi : bucketIndex t.localKey key with
+    | none => rw [insertOrUpdate_none _ now t key v st hi]; exact hbump
+    | some i =>
+      obtain ⟨b', hb', hcase⟩ := insertOrUpdate_cases (ipCfg mi pt) now t key v st i hi
+      exact add_step keyOf mi pt now t _ i key v b' hkey hb'
+        (fun hg => iou_bucket keyOf mi pt now (t.tick + 1) _ key v st _ b' hg hkey hcase) hk hT'
+  | updateNode now key v s =>
+    have hkey : key = keyOf v := hop
+    show IpInv (t.updateNode (ipCfg mi pt) now key v s).1 ∧
+      ValuesMatchKeys keyOf (t.updateNode (ipCfg mi pt) now key v s).1
+    cases hi : bucketIndex t.localKey key with
+    | none => rw [updateNode_none _ now t key v s hi]; exact hbump
+    | some i =>
+      obtain ⟨b', hb', hcase⟩ := updateNode_cases (ipCfg mi pt) now t key v s i hi
+      exact add_step keyOf mi pt now t _ i key v b' hkey hb'
+        (fun hg => un_bucket keyOf mi pt now (t.tick + 1) _ key v _ b' hg hkey hcase) hk hT'
+  | updateNodeStatus now key conn dir =>
+    show IpInv (t.updateNodeStatus (ipCfg mi pt) now key conn dir).1 ∧
+      ValuesMatchKeys keyOf (t.updateNodeStatus (ipCfg mi pt) now key conn dir).1
+    cases hi : bucketIndex t.localKey key with
+    | none => rw [updateNodeStatus_none _ now t key conn dir hi]; exact hbump
+    | some i =>
+      rw [updateNodeStatus_cases _ now t key conn dir i hi]
+      exact shrink_step keyOf mi pt now t i
+        (fun b => (b.updateStatus (ipCfg mi pt) now (t.tick + 1) key conn dir).1)
+        (fun b hg => ⟨updateStatus_mono _ now _ b key conn dir,
+          (good_updateStatus keyOf _ now _ b key conn dir hg).2.2⟩) hk
+  | remove now key =>
+    show IpInv (t.remove (ipCfg mi pt) now key).1 ∧
+      ValuesMatchKeys keyOf (t.remove (ipCfg mi pt) now key).1
+    cases hi : bucketIndex t.localKey key with
+    | none => rw [remove_none _ now t key hi]; exact hbump
+    | some i =>
+      rw [remove_cases _ now t key i hi]
+      exact shrink_step keyOf mi pt now t i
+        (fun b => (b.remove (ipCfg mi pt) now (t.tick + 1) key).1)
+        (fun b hg => ⟨remove_mono _ now _ b key, (good_remove keyOf mi pt now _ b key hg).2.2⟩) hk
+  | entry now key =>
+    show IpInv (t.entryTouch (ipCfg mi pt) now key) ∧
+      ValuesMatchKeys keyOf (t.entryTouch (ipCfg mi pt) now key)
+    rcases entryTouch_cases (ipCfg mi pt) now t key with h | ⟨i, h⟩
+    · rw [h]; exact hbump
+    · rw [h]; exact (applyAt_keep keyOf mi pt now _ i (bump_keep keyOf t hk)).2
+  | iter now => exact (applyAll_keep keyOf mi pt now t hk).2
+  | closest now target => exact (closest_keep keyOf mi pt now t target hk).2
+  | nodesByDistances now ds m => exact (nodesByDistances_keep keyOf mi pt now t ds m hk).2
+  | takeApplied =>
+    show IpInv t.takeApplied.1 ∧ ValuesMatchKeys keyOf t.takeApplied.1
+    have : t.takeApplied.1.buckets = t.buckets := by
+      unfold Table.takeApplied; split <;> rfl
+    exact (keep_congr keyOf t _ this hk).2
+
+
+/-- The three invariants together are preserved by every operation. -/
+theorem step_all (keyOf : Val → Nat) (mi pt : Nat) (t : Table Val) (op : Op Val)
+    (hT : TInv (ipCfg mi pt) t) (hI : IpInv t) (hK : ValuesMatchKeys keyOf t)
+    (hop : op.Respects keyOf) :
+    TInv (ipCfg mi pt) (t.step (ipCfg mi pt) op) ∧ IpInv (t.step (ipCfg mi pt) op) ∧
+      ValuesMatchKeys keyOf (t.step (ipCfg mi pt) op) :=
+  have hT' := step_tinv (ipCfg mi pt) t op hT
+  ⟨hT', step_keep keyOf mi pt t op (keep_of_tinv keyOf _ t hT hI hK) hop hT'⟩
+
+theorem init_ipInv (localKey : Nat) : IpInv (Table.init localKey : Table Val) := by
+  rw [ipInv_iff]
+  have hb : ∀ b ∈ (Table.init localKey : Table Val).buckets, b = {} := by
+    intro b hb; exact List.eq_of_mem_replicate hb
+  refine ⟨fun i => ?_, fun s => ?_⟩
+  · rcases bucket_mem_or_empty (Table.init localKey : Table Val) i with h | h
+    · rw [hb _ h]; exact NB_empty
+    · rw [h]; exact NB_empty
+  · have : TW (inS s) (Table.init localKey : Table Val) = 0 :=
+      sum_map_zero _ _ (fun b hbm => by rw [hb b hbm]; rfl)
+    omega
+
+theorem init_vmk (keyOf : Val → Nat) (localKey : Nat) :
+    ValuesMatchKeys keyOf (Table.init localKey : Table Val) := by
+  rw [vmk_iff]
+  intro b hb
+  rw [List.eq_of_mem_replicate hb]
+  exact VB_empty keyOf
+
+theorem foldl_all (keyOf : Val → Nat) (mi pt : Nat) (ops : List (Op Val)) (t : Table Val)
+    (hops : ∀ op ∈ ops, op.Respects keyOf)
+    (hT : TInv (ipCfg mi pt) t) (hI : IpInv t) (hK : ValuesMatchKeys keyOf t) :
+    IpInv (ops.foldl (Table.step (ipCfg mi pt)) t) := by
+  induction ops generalizing t with
+  | nil => exact hI
+  | cons op ops ih =>
+    obtain ⟨h1, h2, h3⟩ := step_all keyOf mi pt t op hT hI hK (hops op (by simp))
+    exact ih _ (fun o ho => hops o (by simp [ho])) h1 h2 h3
+
+end Discv5.KB.Ip
